@@ -112,6 +112,15 @@ pub fn c08_configs(thorough: bool) -> Vec<EpCfg> {
 }
 pub fn c08(rep: &mut Report) {
     run_all(rep, c08_configs(rep.thorough()), 250_000, 8.0);
+    // 32-bit identifiers: raw id calls incl. the type maximum, and one session configuration
+    for ver in VERS {
+        let mut c = EpCfg::new(&cfg_name("c08-u32", RoleK::Client, Some(ver), "raw-ids"), RoleK::Client, Some(ver));
+        c.auto_pub = true;
+        c.window = 2;
+        c.alph = Alph { pub_q: vec![1, 2], topics: 1, als: vec![Al::No], sub: true, raw_ids: vec![0, 1, 2, 65536, u32::MAX], peer_acks: vec![AckKind::Puback, AckKind::Pubrec, AckKind::Pubcomp], peer_ack_ids: vec![1, 2], peer_sub: true, spontaneous_close: true, pub_any_status: true, ..Alph::default() };
+        c.groups = vec!["c08"];
+        run_cfg::<u32>(rep, c, Limits::new(200, 200_000, 20.0), false);
+    }
     c08_extremes(rep);
     for f in ["c08.acquire", "c08.register-ok", "c08.register-refused", "c08.release-call", "c08.released", "c08.release-on-close", "pub.refused", "sub.refused", "sub.sent", "suback.matching", "suback.unexpected", "session.clean-start", "session.resumed", "c08.scripted-exhaustion"] {
         rep.floor(f, 1);
